@@ -64,7 +64,9 @@ fn main() {
             engine::install_fatal_handlers(std::path::Path::new(&format!("{root}/replays/{}/.inflight.bin", prop.id)));
             if matches!(mode, Mode::Run) {
                 let limit = std::env::var("ZV_STALL_S").ok().and_then(|s| s.parse().ok()).unwrap_or(if args[3] == "quick" { 240 } else { 3600 });
-                engine::start_stall_monitor(limit, std::path::PathBuf::from(format!("{root}/replays/{}/.stalled", prop.id)));
+                // the supervisor's watchdog (ZV_WATCHDOG_S, 1500 s / 6 h) minus two minutes
+                let wd: u64 = std::env::var("ZV_WATCHDOG_S").ok().and_then(|s| s.parse().ok()).unwrap_or(if args[3] == "quick" { 1500 } else { 6 * 3600 });
+                engine::start_stall_monitor(limit, wd.saturating_sub(120), std::path::PathBuf::from(format!("{root}/replays/{}/.stalled", prop.id)));
             }
             let only = !matches!(mode, Mode::Run);
             let mut ctx = Ctx::new(prop.id, tier, seed(), prop.level, mode);
